@@ -1,5 +1,5 @@
 """Property -> rule list. Each rule: (id, text, function(ctx, report))."""
-import rules_cmd, rules_expire, rules_conn, rules_auth, rules_tx, rules_db, rules_zset, rules_rdb, rules_aof, rules_block, rules_pubsub, rules_stream, rules_scan, rules_panic
+import rules_cmd, rules_expire, rules_conn, rules_auth, rules_tx, rules_db, rules_zset, rules_rdb, rules_aof, rules_block, rules_pubsub, rules_stream, rules_scan, rules_panic, rules_lua
 from shared import SERVER
 
 
@@ -79,6 +79,19 @@ def _c11():
         ("R-AOF-DB", "the appended record determines the database", rules_aof.rule_db),
         ("R-AOF-RAND", "no command with a random outcome is appended verbatim", rules_aof.rule_rand),
         ("R-AOF-FRAME", "append_command serialises exactly one Array frame of the command parts and flushes under every fsync policy", rules_aof.rule_frame),
+    ]
+
+
+def _c12():
+    return [
+        ("R-LUA-SANDBOX", "os, io, debug, package, require, dofile, loadfile, load are nulled in every Lua context that runs scripts", rules_lua.rule_sandbox),
+        ("R-LUA-BLOCK", "connection, blocking, transaction, pub/sub, scripting and process commands are refused by the script front end, and nothing the executor implements escapes the block list", rules_lua.rule_block),
+        ("R-PARITY", "every catalogue command dispatched by the server is implemented by the script-side executor with the same effect class and storage primitive", rules_lua.rule_parity),
+        ("R-LUA-SHA", "EVALSHA executes the cached source unmodified through the EVAL entry with the caller's database", rules_lua.rule_sha),
+        ("R-DB", "scripts act on the connection's database (see C18)", rules_db.rule_db),
+        ("R-BIN", "KEYS/ARGV/arguments/replies cross the Lua boundary without lossy or UTF-8-only conversions", rules_lua.rule_bin_script),
+        ("R-LUA-ATOMIC", "nothing reachable from EVAL re-enters the event loop", rules_tx.rule_tx_atomic(lambda ctx: ["storage::commands::lua::handle_eval_with_db"], "EVAL")),
+        ("R-ATOMIC", "script-side command implementations refuse before they mutate", rules_cmd.rule_atomic("C12")),
     ]
 
 
@@ -211,6 +224,7 @@ REGISTRY = {
     "C09": _c09,
     "C10": _c10,
     "C11": _c11,
+    "C12": _c12,
     "C13": _c13,
     "C14": _c14,
     "C15": _c15,
